@@ -18,13 +18,14 @@ M22(es) == [dom |-> <<2>>, cod |-> <<2>>, a |-> [k \in 1..4 |-> DivS2(FromInt(es
 SetOfS(s) == { s[k] : k \in 1..Len(s) }
 OutT(t) ==
   LET wf == ChainEnts(t.f, t.chain, 1) wg == ChainEnts(t.g, t.chain, 1)
-      closed == FSEnts(wf) \cup FSEnts(wg) = {}
+      closed == FSEnts(wf) \cup (IF t.bubble = 2 THEN {} ELSE FSEnts(wg)) = {}
       clause == IF t.exc # "" THEN "substitution-raised"
-                ELSE IF t.rf # wf \/ t.rg # wg THEN "substituted-entries-differ"
-                ELSE IF SetOfS(t.fs0) # FSEnts(t.f) \cup FSEnts(t.g) THEN "free-symbols-of-the-diagram-wrong"
-                ELSE IF SetOfS(t.fs1) # FSEnts(wf) \cup FSEnts(wg) THEN "free-symbols-after-substitution-wrong"
+                ELSE IF t.rf # wf \/ (t.bubble # 2 /\ t.rg # wg) THEN "substituted-entries-differ"
+                ELSE IF SetOfS(t.fs0) # FSEnts(t.f) \cup (IF t.bubble = 2 THEN {} ELSE FSEnts(t.g)) THEN "free-symbols-of-the-diagram-wrong"
+                ELSE IF SetOfS(t.fs1) # FSEnts(wf) \cup (IF t.bubble = 2 THEN {} ELSE FSEnts(wg)) THEN "free-symbols-after-substitution-wrong"
                 ELSE "ok" IN
-  [v |-> <<clause>>, closed |-> closed, e |-> IF closed THEN MatThen(M22(wf), IF t.bubble = 1 THEN MapT(M22(wg), LAMBDA z : Mul(z, z)) ELSE M22(wg)).a ELSE <<>>]
+  [v |-> <<clause>>, closed |-> closed, e |-> IF closed THEN MatThen(M22(wf), IF t.bubble = 1 THEN MapT(M22(wg), LAMBDA z : Mul(z, z))
+                                                           ELSE IF t.bubble = 2 THEN ConjT(M22(wf)) ELSE M22(wg)).a ELSE <<>>]
 Verdicts == LET TR == ndJsonDeserialize(IOEnv.TRACE_FILE) IN [l \in 1..Len(TR) |-> OutT(TR[l])]
 ASSUME ndJsonSerialize(IOEnv.OUT, Verdicts)
 TVInit == PInit
